@@ -190,7 +190,7 @@ func TestVerifC07(t *testing.T) {
 			case r2 := <-done:
 				res.Stopped = true
 				res.Panic, res.Msg, res.Site, res.Kind = r2.Panic, r2.Msg, r2.Site, r2.Kind
-			case <-time.After(1500 * time.Millisecond):
+			case <-time.After(600 * time.Millisecond):
 				abandoned++
 			}
 		}
